@@ -214,9 +214,9 @@ impl Monitor for C17 {
         let mut rng = Rng::for_case("C17", self.seed, idx);
         let mut xs = self.boot.clone();
         let mut log: Vec<String> = vec![];
-        let scenario = *rng.pick(&["top", "loop", "if", "called-word-same-source", "called-word-earlier-source", "deep-call-chain", "meta-block", "word-in-meta", "included-file", "after-include", "injected-text", "identical-sources", "second-error", "definition-body-build-error", "file-included-twice", "resumed-run", "immediate-word-fails-during-a-later-build"]);
+        let scenario = *rng.pick(&["top", "loop", "if", "called-word-same-source", "called-word-earlier-source", "deep-call-chain", "meta-block", "word-in-meta", "included-file", "after-include", "injected-text", "identical-sources", "second-error", "definition-body-build-error", "file-included-twice", "resumed-run", "immediate-word-fails-during-a-later-build", "instruction-limit"]);
         let runtime_ok = !matches!(scenario, "definition-body-build-error");
-        let runtime = runtime_ok && (rng.chance(2, 3) || matches!(scenario, "file-included-twice" | "resumed-run" | "immediate-word-fails-during-a-later-build"));
+        let runtime = runtime_ok && (rng.chance(2, 3) || matches!(scenario, "file-included-twice" | "resumed-run" | "immediate-word-fails-during-a-later-build" | "instruction-limit"));
         let (mut pre, mut tok, mut post, mut class) = failing(&mut rng, runtime);
         let wrapped = !matches!(scenario, "top" | "after-include" | "injected-text" | "identical-sources" | "second-error" | "included-file" | "resumed-run");
         while (wrapped && matches!(tok, ";" | "then" | "loop" | "endcase")) || (scenario == "loop" && tok == "I") {
@@ -433,6 +433,41 @@ impl Monitor for C17 {
                 res = catch(|| if by_eval { xs.eval(&c.text) } else { xs.compile(&c.text) });
                 let (off, t) = s.planted.clone().unwrap();
                 ex = Expect { source_name: name, text: s.text.clone(), offset: off, token: t, class };
+            }
+            "instruction-limit" => {
+                // the budget runs out in the middle of a program: the error names the instruction that was refused. Which one
+                // that is comes from a twin that steps the same program N times without a limit.
+                s.push(&format!("{} 0 do 1 drop {} loop", 3 + rng.below(6), rng.pick_str(&["", "2 3 + drop", ": lw 4 ; lw drop"]).replace(": lw 4 ; lw drop", "5 drop")));
+                s.push(sep);
+                filler(&mut rng, &mut s, 1);
+                let mut twin = xs.clone();
+                if !matches!(catch(|| twin.compile(&s.text)), Ok(Ok(()))) || !matches!(catch(|| xs.compile(&s.text)), Ok(Ok(()))) {
+                    obs.count("setup_failed");
+                    return;
+                }
+                let n = 1 + rng.below(40);
+                let mut done = 0;
+                while done < n && twin.is_running() {
+                    if twin.next().is_err() {
+                        break;
+                    }
+                    done += 1;
+                }
+                if done < n || !twin.is_running() {
+                    obs.count("setup_failed");
+                    return;
+                }
+                let want = match twin.location_from_current_ip() {
+                    Some(l) => l,
+                    None => {
+                        obs.count("setup_failed");
+                        return;
+                    }
+                };
+                let _ = xs.set_insn_limit(Some(n));
+                log.push(format!("{}\n(compiled; set_insn_limit({}); run())", s.text, n));
+                res = catch(|| xs.run());
+                ex = Expect { source_name: want.filename.to_string(), text: s.text.clone(), offset: want.token.range().start, token: want.token.as_str().to_string(), class: "limit-insn" };
             }
             "resumed-run" => {
                 // debugger style: the program stops with an underflow, the host repairs the stack and calls run() again;
